@@ -31,7 +31,7 @@ from .parser_common import Tok, call, ctx, get_ast, put_ast, setup
 PREFIXES = [[], ["parameter"], ["flow"], ["discrete", "output"], ["parameter", "input"], ["flow", "constant", "input"]]
 
 
-def walk_clause(eng, A, L, P, variant, prefixes, names, clause_dims, decl_dims, mods, comments):
+def walk_clause(eng, A, L, P, variant, prefixes, names, clause_dims, decl_dims, mods, comments, nested_modification=False):
     """emulates ParseTreeWalker over one component_clause; returns (clause ctx, declared expression objects)"""
     suffix = "1" if variant else ""
     tp = ctx(eng, P, "Type_prefix", getChildren=VList([Tok(p) for p in prefixes]), getText="".join(prefixes))
@@ -81,6 +81,14 @@ def walk_clause(eng, A, L, P, variant, prefixes, names, clause_dims, decl_dims, 
         cd = ctx(eng, P, "Component_declaration" + suffix, declaration=decl, comment=cctx)
         call(eng, L, "enterComponent_declaration" + suffix, cd)
         call(eng, L, "enterDeclaration", decl)
+        if nested_modification:
+            # the declarator carries a modification of its own, p(start = 1): the walker enters and leaves that class_modification
+            # (and its enclosing modification) while still inside the declaration
+            inner = ctx(eng, P, "Class_modification", argument_list=None)
+            mo = ctx(eng, P, "Modification", class_modification=inner, expression=None)
+            call(eng, L, "enterModification", mo)
+            call(eng, L, "enterClass_modification", inner)
+            call(eng, L, "exitClass_modification", inner)
         call(eng, L, "exitDeclaration", decl)
         call(eng, L, "exitComponent_declaration" + suffix, cd)
     call(eng, L, "exitComponent_clause" + suffix, cl)
@@ -191,14 +199,22 @@ def h_extends_modification_declarations(eng):
     node = class_node(L)
     cref = ctx(eng, P, "Component_reference")
     put_ast(eng, L, cref, A.ref("Base"))
-    ec = ctx(eng, P, "Extends_clause", class_modification=None, component_reference=cref)
+    # extends Base(redeclare parameter Volt p [(start = 1)], redeclare parameter Volt q): the walker's events, rule by rule
+    # (a rule the listener has no method for is a no-op, as in ANTLR's generated base listener)
+    nested = bool(eng.choice(2))
+    eng.input("first_redeclared_component_has_a_modification_of_its_own", nested)
+    cm = ctx(eng, P, "Class_modification", argument_list=None)
+    ec = ctx(eng, P, "Extends_clause", class_modification=cm, component_reference=cref)
     call(eng, L, "enterExtends_clause", ec)
-    # a redeclaration inside the extends clause's modification:  extends Base(redeclare parameter Volt p)
-    walk_clause(eng, A, L, P, 1, ["parameter"], ["p"], None, [None], [None], [""])
+    call(eng, L, "enterClass_modification", cm)
+    walk_clause(eng, A, L, P, 1, ["parameter"], ["p"], None, [None], [None], [""], nested_modification=nested)
+    walk_clause(eng, A, L, P, 1, ["parameter"], ["q"], None, [None], [None], [""])
+    call(eng, L, "exitClass_modification", cm)
     call(eng, L, "exitExtends_clause", ec)
     eng.cover("extends.redeclaration")
-    eng.prove("extends.declarations_in_an_extends_modification_are_not_class_members", z3.BoolVal("p" not in node.fields["symbols"].keys))
-    eng.prove("extends.clause_recorded_and_flag_cleared", z3.BoolVal(len(node.fields["extends"].items) == 1 and L.fields["in_extends_clause"] is False))
+    eng.prove("extends.declarations_in_an_extends_modification_are_not_class_members",
+              z3.BoolVal("p" not in node.fields["symbols"].keys and "q" not in node.fields["symbols"].keys), members=list(node.fields["symbols"].keys))
+    eng.prove("extends.clause_recorded", z3.BoolVal(len(node.fields["extends"].items) == 1))
     # and a declaration after the clause IS a member again
     walk_clause(eng, A, L, P, 0, [], ["z"], None, [None], [None], [""])
     eng.prove("extends.declarations_after_the_clause_are_members", z3.BoolVal("z" in node.fields["symbols"].keys))
